@@ -445,11 +445,13 @@ func perGlobalDigests() []Hash {
 // ---------------------------------------------------------------- instrumentation facts
 
 type instrFacts struct {
-	GoStmts     int      `json:"go_statements"`
-	SyncUses    []string `json:"sync_uses"`
-	ChanUses    int      `json:"chan_uses"`
-	SelectStmts int      `json:"select_statements"`
-	Unmodelled  []string `json:"unmodelled_blocking"`
+	AccSites       int      `json:"access_announcements"`
+	RaceUnmodelled []string `json:"sync_uses_not_modelled_by_race_detector"`
+	GoStmts        int      `json:"go_statements"`
+	SyncUses       []string `json:"sync_uses"`
+	ChanUses       int      `json:"chan_uses"`
+	SelectStmts    int      `json:"select_statements"`
+	Unmodelled     []string `json:"unmodelled_blocking"`
 }
 
 var noPreemption bool
@@ -722,6 +724,9 @@ func runC17(c *Ctx) *Violation {
 			if strings.HasPrefix(out, "COPY-SHARES:") {
 				return &Violation{"C17.s4-copy-shares", strings.TrimPrefix(out, "COPY-SHARES:")}
 			}
+			if strings.HasPrefix(out, "PANIC in a goroutine: DATA RACE: ") {
+				return &Violation{"C17.s6-data-race/" + o.Name, "among the goroutines started by one call of " + o.Name + ": " + strings.TrimPrefix(out, "PANIC in a goroutine: DATA RACE: ")}
+			}
 			if s3Enabled && fastGlobalsDigest() != g0 {
 				return &Violation{"C17.s3-package-state/" + o.Name, fmt.Sprintf("%s wrote package-level state (%s) although no option setter was called: an unsynchronised write that races with any concurrent caller", o.Name, changedGlobals(gBase))}
 			}
@@ -781,7 +786,16 @@ func runC17(c *Ctx) *Violation {
 		return nil
 	}
 	c.Eval()
+	// S6: accesses of different tasks to one package-level variable, one of them a write, must be
+	// ordered by synchronisation (happens-before detector, R8)
+	armRace(func(msg string) {
+		if s.viol == nil {
+			s.viol = &Violation{"C17.s6-data-race", msg}
+		}
+		s.stop = true
+	})
 	s.run()
+	disarmRace(c)
 	c.mapOrderFn = nil
 	c.Put("interleaving", s.trace)
 	c.C["context_switches"] += int64(s.switches)
